@@ -1387,3 +1387,16 @@ Example ex_action_list : action_list ex_mdp [2%nat; 1%nat; O] None (fun _ _ => t
 Proof. reflexivity. Qed.
 Example ex_absorbing : m_abs (to_matrices ex_mdp [2%nat; O; 1%nat] [1%nat; O]) = [true; false; false].
 Proof. reflexivity. Qed.
+
+(* the cut-off is tested BEFORE every pop: once max_states states are visited nothing more is
+   expanded; in particular max_states <= |initial support| (max_states = 0, or 1 with a
+   non-empty support) returns exactly the positive initial support *)
+Theorem reachable_cutoff_stop_thm : forall m pick k fuel,
+  (k <= length (init_support m))%nat -> reachable m pick (Some k) fuel = init_support m.
+Proof.
+  intros m pick k fuel Hk. unfold reachable, reach_run.
+  destruct fuel as [| f]; [reflexivity |].
+  unfold reach_loop. destruct (init_support m) as [| x l] eqn:E; [reflexivity |].
+  unfold cut. apply Nat.leb_le in Hk. rewrite Hk. reflexivity.
+Qed.
+Example ex_reach_cut0 : reachable ex_mdp pick_last (Some O) 7 = [O; 1%nat]. Proof. reflexivity. Qed.
